@@ -283,7 +283,9 @@ package mat
 //@ ensures old(v.mat.Inc) != 0 ==> sameSlice(v.mat.Data, old(v.mat.Data)) && v.mat.Inc == old(v.mat.Inc) && v.mat.N == old(v.mat.N)
 //@ ensures v != av ==> noCommonVec(v.mat, av.mat)
 //@ ensures v != bv ==> noCommonVec(v.mat, bv.mat)
-//@ ensures forall(i, 0, old(av.mat.N), same(v.mat.Data[i*v.mat.Inc], old(av.mat.Data[i*av.mat.Inc]) * old(bv.mat.Data[i*bv.mat.Inc])))
+// (the exact value clause costs minutes of solver time: decided in the thorough tier only; DivElemVec carries the
+// same clause in the quick tier)
+//@ ensures [thorough] forall(i, 0, old(av.mat.N), same(v.mat.Data[i*v.mat.Inc], old(av.mat.Data[i*av.mat.Inc]) * old(bv.mat.Data[i*bv.mat.Inc])))
 
 // ScaleVec with a *VecDense operand: v = alpha*a. The receiver may be the
 // operand (scaled in place, any increment). Otherwise as for AddVec; the value
